@@ -445,6 +445,11 @@ def main(argv):
         if herr:
             print("HARNESS-ERROR property=%s\n%s" % (prop_id, herr))
             return 2
+        if hasattr(mod, "inconclusive") and not vio and not herr:
+            msg = mod.inconclusive(classes)
+            if msg:
+                print("HARNESS-ERROR property=%s inconclusive: %s" % (prop_id, msg))
+                return 2
         if missing and not vio:
             print("HARNESS-ERROR property=%s generator produced no case of class(es): %s" % (prop_id, missing))
             return 2
